@@ -92,6 +92,25 @@ def consistency(s, p, typ, la, pre):
     return 'res', None
 
 
+# look-ahead switched off: whatever follows the caret (the closers look-ahead would cross included) is left alone
+NOLA_LEFT = ['', 'x = "', "y('", 'foo ']
+NOLA_RIGHT = ['"', "'", ')', ']', '}', '">', ' z']
+
+
+def roundtrip_nola(left, abbr, right, typ):
+    line = left + abbr + right
+    caret = len(left) + len(abbr)
+    try:
+        r = extract(line, caret, {'type': typ, 'lookAhead': False})
+    except Exception as e:
+        return ('roundtrip:exception:%s' % type(e).__name__, str(e)[:80])
+    exp = dict(abbreviation=abbr, location=len(left), start=len(left), end=caret)
+    got = None if r is None else dict(abbreviation=r.abbreviation, location=r.location, start=r.start, end=r.end)
+    if got != exp:
+        return (classify(left, abbr, got) + ':look-ahead-off', dict(expected=exp, got=got))
+    return None
+
+
 PREFIX_LEFT = ['', ' ', 'foo ', 'return ', 'x = ', '<div>']
 
 
@@ -229,6 +248,15 @@ def run_shard(shard, ctx, tier):
                     bad = roundtrip(left, abbr, right, typ, tail)
                     if bad:
                         ctx.violation(bad[0], dict(left=left, abbr=abbr, right=right, type=typ, tail=tail), bad[1])
+        for left in NOLA_LEFT:
+            for right in NOLA_RIGHT:
+                ctx.transitions += 1
+                ctx.evals += 1
+                ctx.validated += 1
+                ctx.nontrivial += 1
+                bad = roundtrip_nola(left, abbr, right, typ)
+                if bad:
+                    ctx.violation(bad[0], dict(left=left, abbr=abbr, right=right, type=typ, nola=True), bad[1])
         if typ == 'markup':
             # the same with a configured prefix written before the abbreviation
             for left in PREFIX_LEFT:
@@ -258,6 +286,9 @@ def check_case(case):
         if bad:
             return [('consistency:' + bad[0] if not bad[0].startswith('extract:') else bad[0], bad[1])]
         return []
+    if case.get('nola'):
+        bad = roundtrip_nola(case['left'], case['abbr'], case['right'], case['type'])
+        return [bad] if bad else []
     bad = roundtrip(case['left'], case['abbr'], case['right'], case['type'], case.get('tail', ''), case.get('prefix', ''))
     if bad and case.get('prefix'):
         bad = (bad[0] + ':with-prefix', bad[1])
